@@ -3,6 +3,7 @@ extracted model so that targets can follow Temporal's ack behaviour), execution 
 streamRouting pairs (synctest bubble), canonicalisation, and the executable monitors."""
 import hashlib
 import os
+import re
 import subprocess
 
 from . import vfcore as V
@@ -608,6 +609,14 @@ def engine(ck, prop, tier, seed, gen_kwargs, props, n_quick, n_thorough, proof_o
     if not ok:
         ck.violation({"kind": "build", "log": log[-4000:], "broken": "extraction of Routing/Model.v"}, "model driver does not build", no_input=True)
         return
+    # constants of the model read off the source: both channel capacities are Model.chan_cap
+    try:
+        src = open(os.path.join(V.REPO, "proxy", "proxy_streams.go")).read()
+        caps = re.findall(r"make\(chan Routed(?:Message|Ack), (\d+)\)", src)
+        model_cap = re.search(r"Definition chan_cap : nat := (\d+)\.", open(os.path.join(V.COQ, "theories", "Routing", "Model.v")).read()).group(1)
+        ck.obligation("channel capacities in proxy_streams.go (%s) = Model.chan_cap (%s)" % (",".join(caps), model_cap), len(caps) == 2 and all(c == model_cap for c in caps), "")
+    except Exception as e:  # noqa: BLE001
+        ck.obligation("channel capacities read from proxy_streams.go", False, repr(e))
     rng = V.Rng(seed)
     hs = list(load_corpus(prop))
     n = n_quick if tier == "quick" else n_thorough
